@@ -89,7 +89,7 @@ structure Goal where
   relaxation : Rat := 0
   /-- `violation_timeseries_id is not None` -/
   violationId : Bool := false
-deriving Repr
+deriving Repr, DecidableEq
 
 def Goal.hasMin (g : Goal) : Bool := g.tmin.has
 def Goal.hasMax (g : Goal) : Bool := g.tmax.has
